@@ -25,7 +25,8 @@ pub trait Encoder: Write {
     ;
 }
 
-/*@extract yrs/src/updates/encoder.rs | - | struct EncoderV1 @*/
+// field visibility only (cf. R10): the ghost view `out()` mentions the field
+/*@extract yrs/src/updates/encoder.rs | - | struct EncoderV1 | rules=SUB(from=buf: Vec<u8>;;to=pub buf: Vec<u8>) @*/
 
 impl Write for EncoderV1 {
     open spec fn out(&self) -> Seq<u8> {
@@ -258,4 +259,371 @@ pub proof fn theorem_ranges_round_trip(s: Seq<Ent<()>>, tail: Seq<u8>)
         lemma_range_item_inverse(s[i]);
     }
     lemma_list_round_trip(range_item(), range_enc_item(), s, tail);
+}
+
+// ---------------------------------------------------------------------------------------------
+// IdSet
+// ---------------------------------------------------------------------------------------------
+pub type IdItem = (ClientID, Seq<Ent<()>>);
+
+pub open spec fn enc_idset_item(x: IdItem) -> Seq<u8> {
+    enc_uint(x.0.0 as nat) + enc_ranges(x.1)
+}
+
+pub open spec fn idset_enc_item() -> spec_fn(IdItem) -> Seq<u8> {
+    |x: IdItem| enc_idset_item(x)
+}
+
+/// what `IdSet::encode` writes when the map iterator yields the clients in the order `items` (the count is truncated to
+/// u32, as the code does).  std's BTreeMap iterates in ascending key order; vstd's specification of `iter()` only says
+/// "every stored pair exactly once", so the theorems below hold for EVERY enumeration order.
+pub open spec fn enc_idset_items(items: Seq<IdItem>) -> Seq<u8> {
+    enc_uint((items.len() as u32) as nat) + enc_list(idset_enc_item(), items)
+}
+
+/// `items` lists every entry of `m` exactly once
+pub open spec fn enumerates<V>(items: Seq<(ClientID, V)>, m: Map<ClientID, V>) -> bool {
+    &&& items.len() == m.len()
+    &&& forall|i: int, j: int| 0 <= i < j < items.len() ==> (#[trigger] items[i]).0 != (#[trigger] items[j]).0
+    &&& forall|i: int| 0 <= i < items.len() ==> m.contains_key((#[trigger] items[i]).0) && m[items[i].0] == items[i].1
+    &&& forall|k: ClientID| #[trigger] m.contains_key(k) ==> exists|i: int| 0 <= i < items.len() && (#[trigger] items[i]).0 == k
+}
+
+/// the first `n` items as a map
+pub proof fn lemma_map_of_prefix<V>(items: Seq<(ClientID, V)>, n: int)
+    requires
+        0 <= n <= items.len(),
+        forall|i: int, j: int| 0 <= i < j < items.len() ==> (#[trigger] items[i]).0 != (#[trigger] items[j]).0,
+    ensures
+        forall|k: ClientID| #[trigger] map_of(items.take(n)).contains_key(k) <==> exists|i: int| 0 <= i < n && (#[trigger] items[i]).0 == k,
+        forall|i: int| 0 <= i < n ==> map_of(items.take(n))[(#[trigger] items[i]).0] == items[i].1,
+    decreases n,
+{
+    let p = items.take(n);
+    if n == 0 {
+        assert(p.len() == 0);
+    } else {
+        lemma_map_of_prefix(items, n - 1);
+        let q = items.take(n - 1);
+        assert(p.drop_last() =~= q);
+        assert(p.last() == items[n - 1]);
+        let last = items[n - 1];
+        assert(map_of(p) == map_of(q).insert(last.0, last.1));
+        assert forall|k: ClientID| #[trigger] map_of(p).contains_key(k) <==> exists|i: int| 0 <= i < n && (#[trigger] items[i]).0 == k by {
+            if map_of(p).contains_key(k) {
+                if k == last.0 {
+                    assert(items[n - 1].0 == k);
+                } else {
+                    assert(map_of(q).contains_key(k));
+                    let i = choose|i: int| 0 <= i < n - 1 && (#[trigger] items[i]).0 == k;
+                    assert(0 <= i < n && items[i].0 == k);
+                }
+            }
+            if exists|i: int| 0 <= i < n && (#[trigger] items[i]).0 == k {
+                let i = choose|i: int| 0 <= i < n && (#[trigger] items[i]).0 == k;
+                if i < n - 1 {
+                    assert(0 <= i < n - 1 && items[i].0 == k);
+                    assert(map_of(q).contains_key(k));
+                }
+            }
+        }
+        assert forall|i: int| 0 <= i < n implies map_of(p)[(#[trigger] items[i]).0] == items[i].1 by {
+            if i < n - 1 {
+                assert(items[i].0 != items[n - 1].0);
+                assert(map_of(q)[items[i].0] == items[i].1);
+            }
+        }
+    }
+}
+
+/// inserting the entries of a map, in any order, rebuilds the map
+pub proof fn lemma_map_of_enumerates<V>(items: Seq<(ClientID, V)>, m: Map<ClientID, V>)
+    requires
+        enumerates(items, m),
+    ensures
+        map_of(items) == m,
+{
+    lemma_map_of_prefix(items, items.len() as int);
+    assert(items.take(items.len() as int) =~= items);
+    let r = map_of(items);
+    assert forall|k: ClientID| r.contains_key(k) <==> m.contains_key(k) by {
+        if r.contains_key(k) {
+            let i = choose|i: int| 0 <= i < items.len() && (#[trigger] items[i]).0 == k;
+            assert(m.contains_key(items[i].0));
+        }
+        if m.contains_key(k) {
+            let i = choose|i: int| 0 <= i < items.len() && (#[trigger] items[i]).0 == k;
+            assert(0 <= i < items.len() && items[i].0 == k);
+        }
+    }
+    assert forall|k: ClientID| r.contains_key(k) implies r[k] == m[k] by {
+        let i = choose|i: int| 0 <= i < items.len() && (#[trigger] items[i]).0 == k;
+        assert(r[items[i].0] == items[i].1);
+        assert(m[items[i].0] == items[i].1);
+    }
+    assert(r =~= m);
+}
+
+/// `o1` is `o0` followed by the encoding of SOME enumeration of the set `m`: what `IdSet::encode` guarantees about its output
+pub open spec fn idset_written(m: Map<ClientID, Seq<Ent<()>>>, o0: Seq<u8>, o1: Seq<u8>) -> bool {
+    exists|items: Seq<IdItem>| #[trigger] enumerates(items, m) && o1 == o0 + enc_idset_items(items)
+}
+
+/// the (client, ranges) pairs a BTreeMap iterator yields, by value
+pub open spec fn items_of(s: Seq<(&ClientID, &IdRanges<()>)>) -> Seq<IdItem> {
+    Seq::new(s.len(), |j: int| (*s[j].0, s[j].1@))
+}
+
+/// the items a BTreeMap iterator yields: every stored pair exactly once (vstd's `iter()` contract, restated as in unit ids_lift)
+pub open spec fn iter_of<V>(s: Seq<(&ClientID, &V)>, m: Map<ClientID, V>) -> bool {
+    &&& s.no_duplicates()
+    &&& forall|i: int| 0 <= i < s.len() ==> m.contains_key(*(#[trigger] s[i]).0) && m[*s[i].0] == *s[i].1
+    &&& forall|k: ClientID| #[trigger] m.contains_key(k) ==> exists|i: int| 0 <= i < s.len() && *(#[trigger] s[i]).0 == k
+}
+
+pub proof fn lemma_items_of_enumerates(s: Seq<(&ClientID, &IdRanges<()>)>, m: Map<ClientID, IdRanges<()>>)
+    requires
+        iter_of(s, m),
+        s.len() == m.len(),
+    ensures
+        enumerates(items_of(s), lift(m)),
+{
+    let items = items_of(s);
+    assert(lift(m).dom() =~= m.dom());
+    assert forall|i: int, j: int| 0 <= i < j < items.len() implies (#[trigger] items[i]).0 != (#[trigger] items[j]).0 by {
+        if *s[i].0 == *s[j].0 {
+            assert(m[*s[i].0] == *s[i].1 && m[*s[j].0] == *s[j].1);
+            assert(s[i] == s[j]);
+        }
+    }
+    assert forall|i: int| 0 <= i < items.len() implies lift(m).contains_key((#[trigger] items[i]).0) && lift(m)[items[i].0] == items[i].1 by {
+        assert(m.contains_key(*s[i].0) && m[*s[i].0] == *s[i].1);
+    }
+    assert forall|k: ClientID| #[trigger] lift(m).contains_key(k) implies exists|i: int| 0 <= i < items.len() && (#[trigger] items[i]).0 == k by {
+        assert(m.contains_key(k));
+        let i = choose|i: int| 0 <= i < s.len() && *(#[trigger] s[i]).0 == k;
+        assert(items[i].0 == k);
+    }
+}
+
+/// every enumeration a map iterator may produce lists every entry exactly once
+pub proof fn lemma_all_iters_enumerate(m: Map<ClientID, IdRanges<()>>)
+    ensures
+        forall|s: Seq<(&ClientID, &IdRanges<()>)>| #[trigger] iter_of(s, m) && s.len() == m.len() ==> enumerates(items_of(s), lift(m)),
+{
+    assert forall|s: Seq<(&ClientID, &IdRanges<()>)>| #[trigger] iter_of(s, m) && s.len() == m.len() implies enumerates(items_of(s), lift(m)) by {
+        lemma_items_of_enumerates(s, m);
+    }
+}
+
+impl<T: Merge> IdMapInner<T> {
+    /*@extract yrs/src/ids.rs | impl<T: Merge> IdMapInner<T> | fn len | label=inner_len
+    @ret r
+    @sig
+        ensures r == self.raw().len(),
+    @start
+        proof { axiom_client_id_ord_key_model(); }
+    @*/
+}
+
+impl Encode for IdSet {
+    /// every stored range has start <= end.  `IdSet::decode` establishes it: a decoded set can be encoded again.
+    open spec fn enc_ok(&self) -> bool {
+        ranges_ordered(self@)
+    }
+
+    // v1: what is written is the encoding of SOME enumeration of the stored (client, ranges) pairs
+    /*@extract yrs/src/id_set.rs | impl Encode for IdSet | fn encode | label=idset_encode | rules=SUB(from=for (&client_id, block);;to=for (client_id, block)) INLINE(file=yrs/src/ids.rs;;container=impl<T: Merge> IdMapInner<T>;;fn=iter;;body=self.0.iter();;call=self.0.iter();;to=self.0.0.iter())
+    @sig
+        ensures
+            E::v1() ==> idset_written(self@, old(encoder).out(), final(encoder).out()),
+    @start
+        let ghost o = encoder.out();
+        let ghost mut done = Seq::<IdItem>::empty();
+        proof {
+            axiom_client_id_ord_key_model();
+            self.0.lemma_view();
+            lemma_all_iters_enumerate(self.0.raw());
+        }
+    @loop 1 iter=it
+        invariant
+            iter_of(it.seq(), self.0.raw()),
+            enumerates(items_of(it.seq()), self@),
+            done == items_of(it.seq()).take(it.index@ as int),
+            self@ == lift(self.0.raw()),
+            ranges_ordered(self@),
+            it.seq().len() == self.0.raw().len(),
+            0 <= it.index@ <= it.seq().len(),
+            it.index@ == it.seq().len() ==> done == items_of(it.seq()),
+            E::v1() ==> encoder.out() == o + enc_uint((it.seq().len() as u32) as nat) + enc_list(idset_enc_item(), done),
+    @before 1 `stmt:call reset_ds_cur_val`
+        let ghost i = it.index@ as int;
+        proof {
+            let all = items_of(it.seq());
+            assert(it.seq()[i] == (client_id, block));
+            assert(self.0.raw().contains_key(*client_id) && self.0.raw()[*client_id] == *block);
+            assert(self@.contains_key(*client_id) && self@[*client_id] == block@);
+            assert(ents_ordered(block@)) by {
+                assert forall|j: int| 0 <= j < block@.len() implies (#[trigger] block@[j]).0.start <= block@[j].0.end by {
+                    assert(self@[*client_id][j].0.start <= self@[*client_id][j].0.end);
+                }
+            }
+            lemma_enc_list_push(idset_enc_item(), all.take(i), all[i]);
+            assert(all.take(i).push(all[i]) =~= all.take(i + 1));
+            assert(all[i] == (*client_id, block@));
+            let p = o + enc_uint((it.seq().len() as u32) as nat);
+            let q = enc_list(idset_enc_item(), all.take(i));
+            assert(p + q + enc_uint(client_id.0 as nat) + enc_ranges(block@) =~= p + (q + enc_idset_item(all[i])));
+            assert(i + 1 == all.len() ==> all.take(i + 1) =~= all);
+        }
+        proof { done = done.push((*client_id, block@)); }
+    @end
+        proof {
+            // (at loop exit `done` is the whole enumeration)
+            if E::v1() {
+                let p = enc_uint((done.len() as u32) as nat);
+                assert(o + p + enc_list(idset_enc_item(), done) =~= o + (p + enc_list(idset_enc_item(), done)));
+                assert(enumerates(done, self@) && encoder.out() == o + enc_idset_items(done));
+                assert(idset_written(self@, o, encoder.out()));
+            }
+        }
+    @*/
+}
+
+pub proof fn lemma_idset_item_inverse(x: IdItem)
+    requires
+        client_id_53bit(x.0.0),
+        ents_ordered(x.1),
+        x.1.len() <= u32::MAX,
+    ensures
+        item_inverse(idset_item(), idset_enc_item(), x),
+{
+    assert forall|t: Seq<u8>| #[trigger] idset_item()(idset_enc_item()(x) + t) == Some((x, idset_enc_item()(x).len())) by {
+        let e1 = enc_uint(x.0.0 as nat);
+        let e2 = enc_ranges(x.1);
+        let s = enc_idset_item(x) + t;
+        assert(s =~= e1 + (e2 + t));
+        lemma_dec_enc_u64(x.0.0, e2 + t);
+        assert(s.skip(e1.len() as int) =~= e2 + t);
+        theorem_ranges_round_trip(x.1, t);
+        assert(ClientID(x.0.0) == x.0);
+    }
+}
+
+/// the domain of the IdSet round trip: real client ids (53 bits: an invariant of the real `ClientID`, which the stand-in does
+/// not enforce), ranges with start <= end, fewer than 2^32 ranges per client and fewer than 2^32 clients
+pub open spec fn idset_items_dom(items: Seq<IdItem>) -> bool {
+    &&& items.len() <= u32::MAX
+    &&& forall|i: int| 0 <= i < items.len() ==> client_id_53bit((#[trigger] items[i]).0.0) && ents_ordered(items[i].1) && items[i].1.len() <= u32::MAX
+}
+
+/// C09 for IdSet (v1), in terms of the written item sequence: decoding rebuilds the map of the items, whatever follows
+pub proof fn theorem_idset_items_round_trip(items: Seq<IdItem>, tail: Seq<u8>)
+    requires
+        idset_items_dom(items),
+    ensures
+        dec_idset(enc_idset_items(items) + tail) == Some((map_of(items), enc_idset_items(items).len())),
+{
+    let e1 = enc_uint(items.len());
+    let body = enc_list(idset_enc_item(), items);
+    let x = enc_idset_items(items) + tail;
+    assert(x =~= e1 + (body + tail));
+    lemma_dec_enc_u32(items.len() as u32, body + tail);
+    assert(x.skip(e1.len() as int) =~= body + tail);
+    assert forall|i: int| 0 <= i < items.len() implies item_inverse(idset_item(), idset_enc_item(), #[trigger] items[i]) by {
+        lemma_idset_item_inverse(items[i]);
+    }
+    lemma_list_round_trip(idset_item(), idset_enc_item(), items, tail);
+}
+
+/// the domain of the IdSet round trip, on the set itself
+pub open spec fn idset_dom(m: Map<ClientID, Seq<Ent<()>>>) -> bool {
+    &&& m.len() <= u32::MAX
+    &&& forall|c: ClientID| #[trigger] m.contains_key(c) ==> client_id_53bit(c.0) && ents_ordered(m[c]) && m[c].len() <= u32::MAX
+}
+
+/// C09 for IdSet (v1), end to end: whatever order `IdSet::encode` enumerated the set `m` in, decoding what it wrote
+/// (`bytes`, followed by any tail) returns exactly `m` and stops in front of the tail.  `m` need not be canonical.
+pub proof fn theorem_idset_round_trip(m: Map<ClientID, Seq<Ent<()>>>, bytes: Seq<u8>, tail: Seq<u8>)
+    requires
+        idset_dom(m),
+        idset_written(m, Seq::<u8>::empty(), bytes),
+    ensures
+        dec_idset(bytes + tail) == Some((m, bytes.len())),
+{
+    let items = choose|items: Seq<IdItem>| #[trigger] enumerates(items, m) && bytes == Seq::<u8>::empty() + enc_idset_items(items);
+    assert(Seq::<u8>::empty() + enc_idset_items(items) =~= enc_idset_items(items));
+    assert forall|i: int| 0 <= i < items.len() implies client_id_53bit((#[trigger] items[i]).0.0) && ents_ordered(items[i].1) && items[i].1.len() <= u32::MAX by {
+        assert(m.contains_key(items[i].0) && m[items[i].0] == items[i].1);
+    }
+    theorem_idset_items_round_trip(items, tail);
+    lemma_map_of_enumerates(items, m);
+}
+
+// ---------------------------------------------------------------------------------------------
+// OBSERVATIONS for C16 / C09 (proved facts, not obligations of C10): what the decoders do NOT guarantee.
+// `IdRanges::decode` builds its value with `IdRanges::from_raw` ("assumes sorted/non-overlapping") and `IdSet::decode` with a
+// plain `BTreeMap::insert`.  The round-trip theorems above hold for every list of ranges with start <= end, so each of
+// the following values IS the result of decoding some input (its own encoding) -- and violates the canonical form
+// (`canon`: sorted, disjoint, non-empty, coalesced) / the "no empty per-client entry" invariant the IdRanges / IdSet
+// algebra (units ids*, C16) requires of its arguments.  Decoded values "can be encoded again" (enc_ok), but an
+// operation such as `insert`, `merge`, `contains` on a decoded delete set is outside the verified domain of C16.
+// ---------------------------------------------------------------------------------------------
+pub proof fn observation_decode_not_canonical()
+    ensures
+        ({
+            // unsorted
+            let s = seq![(5u32..6u32, ()), (0u32..3u32, ())];
+            !canon(s) && dec_ranges(enc_ranges(s)) == Some((s, enc_ranges(s).len()))
+        }),
+        ({
+            // an empty range
+            let s = seq![(3u32..3u32, ())];
+            !canon(s) && dec_ranges(enc_ranges(s)) == Some((s, enc_ranges(s).len()))
+        }),
+        ({
+            // overlapping
+            let s = seq![(0u32..5u32, ()), (2u32..7u32, ())];
+            !canon(s) && dec_ranges(enc_ranges(s)) == Some((s, enc_ranges(s).len()))
+        }),
+        ({
+            // adjacent, not coalesced
+            let s = seq![(0u32..2u32, ()), (2u32..4u32, ())];
+            !canon(s) && dec_ranges(enc_ranges(s)) == Some((s, enc_ranges(s).len()))
+        }),
+{
+    let e = Seq::<u8>::empty();
+    let s1 = seq![(5u32..6u32, ()), (0u32..3u32, ())];
+    theorem_ranges_round_trip(s1, e);
+    assert(enc_ranges(s1) + e =~= enc_ranges(s1));
+    assert(s1[0].0.end > s1[1].0.start);
+    let s2 = seq![(3u32..3u32, ())];
+    theorem_ranges_round_trip(s2, e);
+    assert(enc_ranges(s2) + e =~= enc_ranges(s2));
+    assert(!(s2[0].0.start < s2[0].0.end));
+    let s3 = seq![(0u32..5u32, ()), (2u32..7u32, ())];
+    theorem_ranges_round_trip(s3, e);
+    assert(enc_ranges(s3) + e =~= enc_ranges(s3));
+    assert(s3[0].0.end > s3[1].0.start);
+    let s4 = seq![(0u32..2u32, ()), (2u32..4u32, ())];
+    theorem_ranges_round_trip(s4, e);
+    assert(enc_ranges(s4) + e =~= enc_ranges(s4));
+    axiom_unit_eq();
+    assert(s4[0].0.end == s4[1].0.start && s4[0].1.eq_spec(&s4[1].1));
+}
+
+/// a client with NO ranges (`01 07 00`: one client, id 7, zero ranges) decodes to a set with an empty per-client entry
+pub proof fn observation_decode_empty_entry()
+    ensures
+        ({
+            let items = seq![(ClientID(7), Seq::<Ent<()>>::empty())];
+            dec_idset(enc_idset_items(items)) == Some((map_of(items), enc_idset_items(items).len()))
+                && map_of(items).contains_key(ClientID(7)) && map_of(items)[ClientID(7)].len() == 0
+        }),
+{
+    let items = seq![(ClientID(7), Seq::<Ent<()>>::empty())];
+    theorem_idset_items_round_trip(items, Seq::<u8>::empty());
+    assert(enc_idset_items(items) + Seq::<u8>::empty() =~= enc_idset_items(items));
+    assert(items.drop_last() =~= Seq::<IdItem>::empty());
+    assert(map_of(items) == map_of(items.drop_last()).insert(ClientID(7), Seq::<Ent<()>>::empty()));
 }
